@@ -114,7 +114,7 @@ def spec_c10(case, trace):
         if t != 0 and prev_polls is not None and polls != prev_polls:
             return "a future was polled during a step of a waker thread"
         prev_polls, last_deliv = polls, deliv
-        if t != 0 and label == "done":
+        if t != 0 and label in ("done", "skip"):
             threads_done.add(t)
         if t == 0 and label == "loop.polled" and kv["counter"] == "0" and len(threads_done) == nthreads:
             idle_ends += 1
@@ -129,12 +129,12 @@ def spec_c10(case, trace):
 def _chunk(args):
     cases, want_model = args
     text = "\n".join("\n".join(c) for c in cases) + "\n"
-    rc, impl, err = C.run_vh("execsched", text, timeout=3000)
+    rc, impl, err = C.run_vh("execsched", text, timeout=900)
     if rc != 0:
         return ("error", "vh execsched failed: " + err[-300:], None)
     model = None
     if want_model:
-        rc, model, err = C.run_drv("execsched", text, timeout=3000)
+        rc, model, err = C.run_drv("execsched", text, timeout=900)
         if rc != 0:
             return ("error", "drv execsched failed: " + err[-300:], None)
         model = split_cases(model.splitlines())
@@ -156,6 +156,43 @@ def run_all(cases, have_drv=True, workers=16):
     return impl, (model if have_drv else None)
 
 
+def extend_case(case, idx):
+    """A schedule on which model and implementation part ways may have left the executor's wake protocol in a
+    state the trace does not show (e.g. `notified` stuck at true).  Give it a tail that would expose that: one
+    more thread completes and wakes every task once everything else is over, and the loop keeps dispatching."""
+    out, n, k = [], 0, 0
+    for l in case:
+        w = l.split()
+        if w[0] == "case":
+            out.append("case %s_ext%d" % (w[1], idx))
+        elif w[0] == "tasks":
+            k = int(w[1]); out.append(l)
+        elif w[0] == "threads":
+            n = int(w[1]); out.append("threads %d" % (n + 1))
+        elif w[0] == "loop:":
+            out.append(l + " ; dispatch ; dispatch ; dispatch ; dispatch")
+        elif w[0] == "sched":
+            out.append("thread %d: %s" % (n + 1, " ; ".join("complete %d ; wake %d" % (t, t) for t in range(k))))
+            out.append(l + " " + " ".join([str(n + 1)] * (6 * k + 4) + ["0"] * 48))
+        else:
+            out.append(l)
+    return out
+
+
+def window_cases(a_step=1):
+    """Bounded-preemption enumeration around the executor's batch: two tasks polled once; thread 1 wakes task 0 after
+    `a` loop steps, thread 2 wakes task 1 after `b` further loop steps (so that, over all b, its whole wake falls into
+    every window of the dispatch that the first wake caused), and thread 3 completes and wakes both at the very end."""
+    out = []
+    for a in range(8, 30, a_step):
+        for b in range(0, 12):
+            sched = [0] * a + [1] * 6 + [0] * b + [2] * 6 + [0] * 14 + [3] * 14 + [0] * 40
+            out.append(case_text("win_%d_%d" % (a, b), 2,
+                                 ["schedule 0", "schedule 1"] + ["dispatch"] * 14,
+                                 ["wake 0", "wake 1", "complete 0 ; wake 0 ; complete 1 ; wake 1"], sched))
+    return out
+
+
 def batch_limit_case():
     """1025 runnables in one go (single-threaded): the batch limit must not strand the last one."""
     n = 1025
@@ -168,6 +205,7 @@ def run(res, tier, seed, search=False, have_drv=True):
     cases = list(WITNESSES) + [batch_limit_case()]
     for i in range((250 if tier == "quick" else 8000) * (4 if search else 1)):
         cases.append(random_case(rnd, i))
+    cases += window_cases(3 if tier == "quick" and not search else 1)
     impl, model = run_all(cases, have_drv)
     res.cov["evaluations"] = len(cases)
     res.cov["exhaustive"] = False
@@ -202,6 +240,20 @@ def run(res, tier, seed, search=False, have_drv=True):
                                               "model.obs": "\n".join(model[i][:400]) + "\n"}, tag="diff")
                 res.broken.append("correspondence: real executor and ExecProto disagree on `%s`: impl `%s` vs model `%s` (replay %s)"
                                   % (" | ".join(c[1:-1])[:400], first[0][:200], first[1][:200], os.path.join(d, "case.sched")))
+    # directed search: the correspondence broke but no clause was violated on the schedules as generated
+    if model is not None and res.broken and not res.violations:
+        differing = [c for i, c in enumerate(cases) if impl[i] != model[i] and len(c[1].split()) > 1 and int(c[1].split()[1]) <= 8][:60]
+        ext = [extend_case(c, j) for j, c in enumerate(differing)] + (window_cases(1) if tier == "quick" and not search else [])
+        if ext:
+            eimpl, _ = run_all(ext, False)
+            res.cov["directed_search_schedules"] = len(ext)
+            for c, t in zip(ext, eimpl):
+                v = spec_c10(c, t)
+                if v:
+                    d = C.write_replay(res.pid, {"case.sched": "\n".join(c) + "\n", "impl.obs": "\n".join(t[:400]) + "\n", "model.obs": "-\n",
+                                                  "verdict.txt": v + "\n"})
+                    res.violations.append(("C10 on the real executor: %s   [%s]" % (v, " | ".join(c[1:-1])[:600]), os.path.join(d, "case.sched")))
+                    break
     res.cov["distinct_nontrivial"] = len(nontrivial)
     res.cov["traces_validated_against_impl"] = len(cases) if model is not None else 0
     res.cov["batch_limit_case"] = "1025 runnables queued before one dispatch: last delivered=" + (impl[2][-2][:60] if len(impl) > 2 else "?")
